@@ -199,9 +199,11 @@ def cases(rng, tier):
     # 4. random provable primes, semiprimes, prime squares and neighbours up to 512 bits
     # (the extracted model multiplies unary-binary [positive]s: a 512-bit prime costs ~2 min of model time, a 256-bit one
     #  ~15 s; composites are rejected in the first rounds. Quick tier therefore stops at 256-bit primes, 512-bit composites.)
-    for bits in ([16, 24, 32, 48, 63, 64, 65, 96, 128, 192, 256] * (3 if th else 1) + [384, 512]):
+    # primes just above and well above 256 bits too: a round count (or any shortcut) that depends on the size of n shows
+    # only there; the model then wants 20 draws where the implementation logged fewer
+    for bits in ([16, 24, 32, 48, 63, 64, 65, 96, 128, 192, 256] * (3 if th else 1) + [257, 320, 384, 512] + ([768] if th else [])):
         p = provable_prime(bits, rng)
-        if th or bits <= 256:
+        if th or bits <= 384:
             out.append(mk(p, seed(), [], 'random-prime', expected=True))
         hb = max(2, bits // 2)
         a, b = provable_prime(hb, rng), provable_prime(max(2, bits - hb), rng)
